@@ -133,6 +133,12 @@ class Ctx:
             raise klass(node, () if self.h.get("emptymsg") else None)
         self.log("end", node)
         self.stall(node)
+        if self.h.get("awaitable") and node % 2 == 0:
+            # the object a body returns may itself be awaitable (a future, a task handle):
+            # it is the job's result as it stands
+            fut = self.loop.create_future()
+            fut.set_result("inner-%d" % node)
+            self.ret[node] = fut
         return self.ret[node]
 
     def stall(self, node):
@@ -541,6 +547,9 @@ def _run_scenario(sc):
             loop.on_tick = None
             if ctx.snapping:
                 ctx.snap()
+            if topv not in ("deadlock", "livelock"):
+                # what result() / raised_exception() answer for every node once the run is over
+                ctx.log("res", 0, snap=[ctx.code(i)[1:3] for i in range(2, ctx.n + 1)])
             ctx.log("top", 1, topv, topi)
             if topv not in ("deadlock", "livelock"):
                 if topv != "cancelled":
